@@ -66,7 +66,7 @@ class C18(World):
         "each run = one generated history (3-16 steps) on 1-2 cycle objects: solve(fluid, Te, Tc, dT_sh, dT_sc, eta, Q, ihx_gas_dt=0), "
         "build(cond) / build(evap) / build(both), dtcont / dt_diff_max assignment, metric reads, re-solve with new arguments, deliberately "
         "failing solves; fluids 70 % mainstream refrigerants, 30 % any CoolProp fluid; temperatures inside [max(Ttriple,Tmin)+5 K, Tcrit-10 K] "
-        "with lift >= dT_sh+dT_sc+5 K.  distinct = distinct step list; non-trivial = >=1 successful solve followed by >=2 stream-set requests "
+        "with any positive lift (>= 0.5 K, also smaller than superheat + subcooling).  distinct = distinct step list; non-trivial = >=1 successful solve followed by >=2 stream-set requests "
         "or a re-solve."
     )
     assumptions = [
@@ -127,7 +127,7 @@ class C18(World):
                 pass
             dsh = float(args.choice([0, 0, 2, 5, 10]))
             dsc = float(args.choice([0, 0, 2, 5, 10]))
-            minlift = dsh + dsc + 5.0 + args.choice([0.0, 0.5, 5.0, 20.0])
+            minlift = args.choice([0.5, 1.0, 3.0, dsh + dsc + 1.0, dsh + dsc + 5.0, dsh + dsc + 10.0, dsh + dsc + 25.0])  # any positive lift, incl. smaller than superheat + subcooling
             if hi - lo <= minlift + 1.0:
                 fl = "R134a"
                 lo, tc, _ = limits(fl)
@@ -137,7 +137,7 @@ class C18(World):
             if swarm["mainstream"] and args.random() < 0.25:
                 # round everyday operating points (0 C, 5 C, ... as an engineer would type them)
                 te_c, tc_c = float(args.choice([-10, 0, 0, 5, 10, 20])), float(args.choice([35, 40, 50, 60, 80]))
-                if lo <= te_c + 273.15 and tc_c + 273.15 <= hi and tc_c - te_c >= minlift:
+                if lo <= te_c + 273.15 and tc_c + 273.15 <= hi and tc_c - te_c >= 0.5:
                     te, tcnd = te_c + 273.15, tc_c + 273.15
             try:
                 ok_floor = CP.PropsSI("P", "T", te, "Q", 1, fl) >= floor * 0.999
@@ -471,7 +471,7 @@ class C18(World):
                         probe("re_solve")
                     m.update(solved=True, args=a, first={}, pattern=[], metrics=None, n_cond=None, n_evap=None)
                     lim = limits(a["refrigerant"])
-                    in_domain = lim is not None and lim[0] + 5.0 - 0.011 <= a["Te"] + 273.15 and a["Tc"] + 273.15 <= lim[1] - 10.0 + 0.011 and a["Tc"] - a["Te"] >= a["dT_sh"] + a["dT_sc"] + 5.0 - 1e-9 and op in ("solve", "solve_variant")
+                    in_domain = lim is not None and lim[0] + 5.0 - 0.011 <= a["Te"] + 273.15 and a["Tc"] + 273.15 <= lim[1] - 10.0 + 0.011 and a["Tc"] - a["Te"] >= 0.5 - 1e-9 and op in ("solve", "solve_variant")
                     if in_domain:
                         try:
                             in_domain = CP.PropsSI("P", "T", a["Te"] + 273.15, "Q", 1, a["refrigerant"]) >= 10.0 * 0.999
